@@ -79,7 +79,7 @@ def deserialize_json(
     if registry is None:
         registry = JWSRegistry(algorithms=algorithms)
 
-    headers = obj.headers()
+    headers = obj.member.protected or obj.headers()
     if headers["b64"] is True:
         return _deserialize_json(value, public_key, registry=registry)
 
@@ -106,7 +106,9 @@ def _extract_json(value: FlattenedJSONSerialization) -> t.Optional[FlattenedJSON
 
     header = value.get("header")
     member = HeaderMember(protected, header)
-    headers = member.headers()
+    # "b64" MUST be integrity protected (RFC 7797, section 3): when there is a
+    # protected header, only that header can switch the payload encoding
+    headers = protected or member.headers()
     if "b64" not in headers:
         return None
 
